@@ -25,6 +25,7 @@ import (
 	metav1 "k8s.io/apimachinery/pkg/apis/meta/v1"
 	apimachineryvalidation "k8s.io/apimachinery/pkg/util/validation"
 	"k8s.io/apimachinery/pkg/util/validation/field"
+	"k8s.io/client-go/tools/cache"
 	apivalidation "k8s.io/kubernetes/pkg/apis/core/validation"
 	"k8s.io/utils/clock"
 
@@ -75,6 +76,34 @@ func (v *Validator) ValidateJobConfig(rjc *v1alpha1.JobConfig) field.ErrorList {
 	allErrs := field.ErrorList{}
 	allErrs = append(allErrs, validation.ValidateMaxLength(rjc.Name, maxJobConfigNameLen, field.NewPath("metadata").Child("name"))...)
 	allErrs = append(allErrs, v.ValidateJobConfigSpec(&rjc.Spec, field.NewPath("spec"))...)
+	if len(allErrs) == 0 {
+		allErrs = append(allErrs, v.validateCronScheduleForJobConfig(rjc, field.NewPath("spec", "schedule", "cron"))...)
+	}
+	return allErrs
+}
+
+// validateCronScheduleForJobConfig parses the cron schedule in the same way as the cron
+// scheduler will. Hash tokens are materialized using the JobConfig's namespaced name, and
+// whether an expression can be parsed may depend on that value, so it is not sufficient to
+// parse it with an empty hash ID only. A JobConfig that is admitted here but cannot be
+// parsed by the scheduler would otherwise prevent all JobConfigs from being scheduled.
+func (v *Validator) validateCronScheduleForJobConfig(rjc *v1alpha1.JobConfig, fldPath *field.Path) field.ErrorList {
+	allErrs := field.ErrorList{}
+	schedule := rjc.Spec.Schedule
+	if schedule == nil || schedule.Cron == nil || rjc.Name == "" {
+		return allErrs
+	}
+	cfg, err := v.ctrlContext.Configs().Cron()
+	if err != nil {
+		return allErrs
+	}
+	name, err := cache.MetaNamespaceKeyFunc(rjc)
+	if err != nil {
+		return allErrs
+	}
+	if _, err := cron.NewExpressionFromCronSchedule(schedule.Cron, cron.NewParserFromConfig(cfg), name); err != nil {
+		allErrs = append(allErrs, field.Invalid(fldPath, schedule.Cron, "cannot parse cron schedule for this JobConfig"))
+	}
 	return allErrs
 }
 
